@@ -48,6 +48,14 @@ impl<'a> ExpressionReducer for UndefinedFunctionReducer<'a> {
                 self.visit_expressions(indices)?,
                 element_type,
             )),
+            Expression::Property(left, name, element_type) => {
+                let mapped_left = self.visit_expression(*left)?;
+                Ok(Expression::Property(
+                    Box::new(mapped_left),
+                    name,
+                    element_type,
+                ))
+            }
             _ => Ok(expression),
         }
     }
